@@ -43,6 +43,8 @@ DEFAULTS = dict(
     p_stored=0.35,
     p_src=0.2,
     p_depsrc=0.12,
+    p_fed=0.12,
+    p_defer_adds=0.5,
     p_norm=0.4,
     max_fan_in=4,
     depth_max=0,
@@ -236,6 +238,18 @@ class Gen:
             self.usable.remove(w["id"])
         return name_holder
 
+    def add_fed_source(self):
+        """A source whose data is produced by the write of a stored node
+        (the source depends on that node)."""
+        cands = [n for n in self.nodes if n["kind"] == "call" and n.get("store")
+                 and not self.stores[n["store"]].get("feeds")]
+        if not cands:
+            return None
+        y = self.rng.choice(cands)
+        z = self.add_src(deps=[y["id"]])
+        self.stores[y["store"]]["feeds"] = z["store"]
+        return z
+
     # ---- whole world -----------------------------------------------------
     def world(self):
         p = self.p
@@ -251,6 +265,8 @@ class Gen:
                 self.add_src()
             elif reg and r < p["p_src"] * 0.3 + p["p_depsrc"]:
                 self.add_depsrc()
+            elif reg and self.coin(p["p_fed"]) and self.add_fed_source() is not None:
+                pass
             elif r < 0.5 * p["p_lit"] + (p["p_src"] if reg else 0):
                 self.add_lit()
             elif self.coin(p["p_unpack"]):
@@ -263,6 +279,11 @@ class Gen:
                     n["store"] = self.new_store()
                     n["add_depth"] = self.rng.randrange(0, p["depth_max"] + 1)
         world = dict(nodes=self.nodes, stores=self.stores, late_deps=[], output=None)
+        if reg and self.coin(p["p_defer_adds"]):
+            world["defer_adds"] = True
+            order = [n["id"] for n in self.nodes if n.get("store") and n["kind"] != "src"]
+            self.rng.shuffle(order)
+            world["add_order"] = order
         self.add_late_deps(world)
         self.add_parallel_edges(world)
         world["output"] = self.output()
